@@ -34,6 +34,11 @@ class DictDB:
     def get_siteinfo(self):
         return self.siteinfo
 
+    def select(self, start, end):
+        # <pages from=.. to=..> asks the wiki for the titles in a range (nuwiki.NuWiki.select); parse_txt
+        # falls back to a DictDB-backed expander when no wiki is given
+        return sorted(k for k in self.data_dict if start <= k <= end)
+
 
 def expand_str(input_string, expected=None, wikidb=None, pagename="thispage"):
     """debug function. expand templates in string s"""
